@@ -234,9 +234,26 @@ Lemma run_new_mirror : forall w nm meta msg, mirror w -> mirror (fst (run_new w 
 Proof. intros. unfold run_new, put. mir. Qed.
 Lemma run_spill_mirror : forall w, mirror w -> mirror (fst (run_spill w)).
 Proof. intros. unfold run_spill, put. mir. Qed.
+Lemma log_extmods_first_op_mir : forall op0 op,
+  op_mir op0 -> log_extmods_first op0 = Some op -> op_mir op.
+Proof.
+  intros op0 op [Hp Hi] E. unfold log_extmods_first in E.
+  destruct (Nat.eqb _ _); [injection E as <-; split; assumption|].
+  unfold log_external_mods in E. destruct (w_stack (op_world op0)) as [so|]; [|discriminate].
+  destruct (state_commit _ _ _) as [[objs' so']|] eqn:Ec; [|discriminate].
+  injection E as <-. apply state_commit_state in Ec as [_ Ec].
+  split; cbn; [exact Hp|]. left. unfold cur_state. cbn. exact Ec.
+Qed.
+
 Lemma run_undo_like_mirror : forall w s h m, mirror w -> mirror (fst (run_undo_like w s h m)).
-Proof. intros. unfold run_undo_like. mir. Qed.
-Lemma run_undo_mirror : forall w n h, mirror w -> mirror (fst (run_undo w n h)).
+Proof.
+  intros w s h m H. unfold run_undo_like.
+  destruct (open_stack PRequire w) as [op0|] eqn:Eo; [apply open_op_mir in Eo|exact H].
+  destruct (log_extmods_first op0) as [op|] eqn:El.
+  - apply (log_extmods_first_op_mir _ _ Eo) in El. mir.
+  - mir.
+Qed.
+Lemma run_undo_mirror: forall w n h, mirror w -> mirror (fst (run_undo w n h)).
 Proof. intros. unfold run_undo. destruct (n <? 1)%Z; [assumption|now apply run_undo_like_mirror]. Qed.
 Lemma run_redo_mirror : forall w n h, mirror w -> mirror (fst (run_redo w n h)).
 Proof.
